@@ -3,17 +3,23 @@
    coq/Valid/ValidRules.v + ValidOverlap.v (26 rule visitors of
    py_gql/validation over the TypeInfoVisitor context). *)
 From PyGql Require Import Valid.ValidOverlap Spec.ValidSpec
-     Proofs.ValidCloseProofs Proofs.ValidMergeProofs Proofs.ValidStaticProofs.
+     Proofs.ValidCloseProofs Proofs.ValidMergeProofs Proofs.ValidStaticProofs Proofs.ValidFuelProofs.
 
-(* Full statement: for every schema and document the model returns a list. *)
-Definition C05_validate_total_full : Prop :=
-  forall s d, exists fuel l, validate_model fuel s d = Ok l.
+(* For every schema and every executable document -- valid or not, also with
+   cyclic fragment spreads -- the model of validate_ast returns its list of
+   errors with the stated fuel `overlap_fuel s d` (= (number of memo keys of
+   the document) * (3h + 4) + 3h + 3, h the deepest selection nesting): no
+   Crash, no Rejected, no OutOfFuel, all 26 rules. The termination measure of
+   OverlappingFieldsCanBeMerged is the number of (fragment, fragment, flag) and
+   (selection set, fragment, flag) keys not yet compared, then the nesting
+   depth of the compared selections. (Holds for the tree with fix C05-07; the
+   unrepaired rule recursed for ever on `fragment G on T { f { ...G f { ...G } } }`.) *)
+Theorem C05_validate_total : forall s d,
+  exists l, validate_model (overlap_fuel s d) s d = Ok l.
+Proof. exact validate_total. Qed.
+Print Assumptions C05_validate_total.
 
-(* Proved part: the 25 rules other than OverlappingFieldsCanBeMerged return a
-   list for every schema and every document, with any amount of fuel (their
-   only search, the spread closure, carries its own sufficient bound). Missing
-   for the full statement: a fuel bound for the fragment-pair search of
-   OverlappingFieldsCanBeMerged on arbitrary (also cyclic) fragment graphs. *)
+(* The 25 rules other than OverlappingFieldsCanBeMerged need no fuel at all. *)
 Theorem C05_validate_total_partial : forall fuel s d,
   exists l, validate_rules fuel s d rules_but_overlap = Ok l.
 Proof. exact validate_total_but_overlap. Qed.
@@ -46,8 +52,8 @@ Print Assumptions C05_merge_unambiguous_pairwise.
 (* When the rule is silent on a selection set, every two fields collected
    under one response key of that set (through inline fragments) are
    mergeable. Named fragment spreads are covered by the correspondence only. *)
-Theorem C05_merge_unambiguous_within : forall fuel s frs parent sels st st',
-  run_list fuel s frs (selset_calls s parent sels) st false = Ok (false, st') ->
+Theorem C05_merge_unambiguous_within : forall fuel s frs parent l sels st st',
+  run_list fuel s frs (selset_calls s parent l sels) st false = Ok (false, st') ->
   forall key fs f1 f2,
     In (key, fs) (fst (fields_and_fragments s parent sels)) -> In (f1, f2) (perms fs) ->
     pair_mergeable s f1 f2.
@@ -81,6 +87,6 @@ Example C05_example :
   let good := Doc [DOperation OpQuery None [] [] None [SField None (nm "a") [] [] None [] None] None] None in
   let bad := Doc [DOperation OpQuery None [] [] None
                     [SField None (nm "b") [] [] None [] None; SSpread (nm "F") [] None] None] None in
-  validate_model 100 s good = Ok [] /\
-  validate_model 100 s bad = Ok [(9%N, None); (11%N, None)].
+  validate_model (overlap_fuel s good) s good = Ok [] /\
+  validate_model (overlap_fuel s bad) s bad = Ok [(9%N, None); (11%N, None)].
 Proof. vm_compute. split; reflexivity. Qed.
